@@ -177,6 +177,35 @@ FROB_KIND = {('Fq2', (1,)): 'fq2_c1', ('Fq6', (1,)): 'fq6_c1', ('Fq6', (2,)): 'f
              ('Fq12', (1, 0)): 'fq12_c1', ('Fq12', (1, 1)): 'fq12_c1', ('Fq12', (1, 2)): 'fq12_c1'}
 
 
+def _is_one(m):
+    try:
+        return (isinstance(m, M.F1) and m == M.F1(1)) or (isinstance(m, M.F2) and m == M.F2(1, 0))
+    except Exception:
+        return False
+
+
+def canon_leaf(v, prime_leaf):
+    """(leaf, conjugated?, non-trivial multipliers) of a value built from one leaf by Frobenius maps with concrete
+    powers and multiplications by constants: the Frobenius of Fq is the identity, that of Fq2 has period 2, and
+    multiplying by 1 changes nothing.  None when the value is not of that form."""
+    mults = []
+    while isinstance(v, tuple) and v and v[0] == 'mul':
+        if not _is_one(v[2]):
+            if not isinstance(v[2], (M.F1, M.F2)):
+                return None
+            mults.append(v[2])
+        v = v[1]
+    conj = 0
+    while isinstance(v, tuple) and v and v[0] == 'frob':
+        if not isinstance(v[2], int):
+            return None
+        conj ^= (0 if prime_leaf else v[2] & 1)
+        v = v[1]
+    if not isinstance(v, str):
+        return None
+    return (v, conj, mults)
+
+
 def rule_frobenius(fx, rep):
     """frobenius_map(power) interpreted for every power 0 .. 2*period (+1): every component is first mapped by its own
     Frobenius with the caller's power, then component i is multiplied by exactly gamma_i(power) = (u+1)^((q^power - 1)/d)
@@ -276,10 +305,8 @@ def rule_frobenius(fx, rep):
                         walk(a_, b_, idx + (i_,))
                     return
                 want, kind = want_leaf(idx, shape)
-                alt = None
-                if not recursive and isinstance(v, tuple) and v and v[0] == 'frob':
-                    alt = v[1]        # Frobenius of the prime field is the identity
-                ok = (v == want) or (alt is not None and alt == want)
+                cv, cw = canon_leaf(v, not recursive), canon_leaf(want, not recursive)
+                ok = (v == want) or (cv is not None and cv == cw)
                 if not ok and kind and isinstance(v, tuple) and v and v[0] == 'mul' and v[1] == want[1]:
                     bad.append('power %d: component c%s is multiplied by a value that is not (u+1)^((q^%d - 1)/d)' % (k, ''.join(map(str, idx)), k))
                 elif not ok:
